@@ -456,9 +456,23 @@ fn gen_line(rng: &mut Rng, used_lists: &mut [bool; 3]) -> Line {
                 seps: (0..n).map(|_| gen_sep(rng)).collect(),
             }
         }
+        12 if rng.chance(1, 3) => Item::Unknown {
+            // an unknown key that collides with a known one under a common 32-bit string hash
+            key: rng.pick(&crate::collisions::COLLISIONS).2.to_string(),
+            val: gen_value(rng),
+        },
         12 => Item::Unknown {
             key: rng
-                .pick(&["DEPENDS", "PKGPATH", "pkgname", "PKGNAMES", "XPKGNAME", "MAINTAINERS", "FOO_BAR", "PKG_LOCATIONS"])
+                .pick(&[
+                    "DEPENDS", "PKGPATH", "pkgname", "PKGNAMES", "XPKGNAME", "MAINTAINERS", "FOO_BAR", "PKG_LOCATIONS",
+                    // several words, one of them a known key; a known key with something attached
+                    // (not a known key followed only by blanks: whether "PKGNAME\u{a0}" is PKGNAME is
+                    // not fixed by the property - the pinned code trims the key)
+                    "MAINTAINER of this package", "PKGNAME and version", "ALL_DEPENDS extra", "the PKGNAME", "x MAINTAINER",
+                    "PKG_LOCATION\tx", "PKGNAME.", "PKGNAME:", "PKGNAME+", "PKGNAME[0]", "MAINTAINER?", "#MAINTAINER", "# PKGNAME",
+                    "PKG_SKIP_REASON PKG_FAIL_REASON", "ALL_DEPENDS,", "-PKGNAME", "MAINTAINER\u{2003}x", "PKG LOCATION", "PKG-LOCATION",
+                    "", "=", "\u{e9}", "Pkgname", "MAINTAINEr",
+                ])
                 .to_string(),
             val: gen_value(rng),
         },
